@@ -73,13 +73,27 @@ template <> struct Ops<HEQ>
 // so the harness passes the running object's index through a global instead.
 int g_running = -1;
 
+// guards held on an object by an operation in flight (guardbegin/guardend): w = 0 the guard a
+// processing call holds on queueEmptyCounter (done directly: it only exists inside process()),
+// w = 1 a live DisableQueueNotify (EventQueue) / the same counter directly (HeterEventQueue has no such class)
+struct NotifyGuards
+{
+	std::vector<std::unique_ptr<EQ::DisableQueueNotify>> eq;
+	void begin(EQ & q) { eq.emplace_back(new EQ::DisableQueueNotify(&q)); }
+	void end(EQ &) { if(eq.empty()) { std::printf("harness-error no guard\n"); std::fflush(stdout); std::abort(); } eq.pop_back(); }
+	void begin(HEQ & q) { ++q.queueNotifyCounter; }
+	void end(HEQ & q) { --q.queueNotifyCounter; }
+};
+
 template <typename Q>
 struct Runner : Base
 {
 	std::vector<std::unique_ptr<Slot<Q>>> slots;
+	std::vector<NotifyGuards> guards;       // declared after slots: released before the queues are destroyed
 	int fill;
 	Runner(int n, int fill) : fill(fill) {
 		for(int i = 0; i < n; ++i) slots.emplace_back(new Slot<Q>());
+		guards.resize(n);
 		make(0);
 	}
 	Q & at(long i) {
@@ -105,6 +119,8 @@ struct Runner : Base
 		else if(op == "dispatch") { g_running = (int)num(c[1]); at(num(c[1])).dispatch((int)num(c[2]), (int)num(c[3])); }
 		else if(op == "emptyq") { std::printf("ret %d\n", (int)at(num(c[1])).emptyQueue()); }
 		else if(op == "canprocess") { std::printf("ret %d\n", (int)at(num(c[1])).doCanProcess()); }
+		else if(op == "guardbegin") { Q & q = at(num(c[1])); if(num(c[2]) == 0) ++q.queueEmptyCounter; else guards[num(c[1])].begin(q); }
+		else if(op == "guardend") { Q & q = at(num(c[1])); if(num(c[2]) == 0) --q.queueEmptyCounter; else guards[num(c[1])].end(q); }
 		else if(op == "new") { make(num(c[1])); }
 		else if(op == "copyctor") { Q & src = at(num(c[1])); Slot<Q> & s = freeSlot(num(c[2])); s.p = new (s.storage) Q(src); }
 		else if(op == "movector") { Q & src = at(num(c[1])); Slot<Q> & s = freeSlot(num(c[2])); s.p = new (s.storage) Q(std::move(src)); }
